@@ -53,6 +53,7 @@ func VerifC16_v1prio_stop() {
 	vExpect("LASSO", "fail:C16: after Stop/cancel the scheduling goroutine spins for ever (all handlers busy, nobody releases)")
 	vExpect("BLOCKED", "fail:C16: after Stop/cancel the scheduling goroutine blocks for ever")
 	vExpect("BUDGET", "fail:C16: after Stop/cancel the scheduling goroutine does not terminate")
+	vTermWatch(d.err)
 	d.main()
 	vReach("returned")
 	vAssert(vTickerStops() == 1, "C19: the interrupter ticker is stopped when main returns")
